@@ -69,6 +69,12 @@ func WorkloadMain(args []string) int {
 		return workloadBG(in, &h, ack)
 	}
 	for i := range h.Steps {
+		if h.Steps[i].Kind == "shutdown" {
+			// C35: what every bucket's query returns just before the shutdown (reads only)
+			pre := QueryAll(in.Cat)
+			b, _ := json.Marshal(pre)
+			os.WriteFile(ackf+".pre", b, 0o644)
+		}
 		if err := in.RunStep(&h, &h.Steps[i]); err != nil {
 			ack.WriteString(fmt.Sprintf("NAK %d\n", i))
 			continue
@@ -137,8 +143,9 @@ func RecoverMain(args []string) int {
 
 // Recording of one traced run.
 type Recording struct {
-	Ops  []Op `json:"ops"`
-	Exit int  `json:"exit"`
+	Ops  []Op      `json:"ops"`
+	Exit int       `json:"exit"`
+	Pre  []QBucket `json:"pre,omitempty"` // query results just before a final shutdown step
 }
 
 func self() string {
@@ -183,7 +190,11 @@ func Record(h *History, dir string, keep bool) (*Recording, error) {
 	if err != nil {
 		return nil, err
 	}
-	return &Recording{Ops: ops, Exit: code}, nil
+	rec := &Recording{Ops: ops, Exit: code}
+	if b, err := os.ReadFile(ackf + ".pre"); err == nil {
+		json.Unmarshal(b, &rec.Pre)
+	}
+	return rec, nil
 }
 
 // RecoverImages runs the real recovery on each directory, batching directories per child process.
